@@ -1,10 +1,14 @@
 #!/bin/sh
-# usage: bin/try-seed.sh <patch.diff> <ID> [tier]   -- apply a seeded change to /repo, run the check, undo.
-patch="$1"; id="$2"; tier="${3:-quick}"
-cd /repo || exit 2
-if [ -n "$(git status --porcelain --untracked-files=no)" ]; then echo "/repo not clean"; exit 2; fi
-git apply "$patch" || { echo "patch does not apply"; exit 2; }
-( cd /verif && VERIF_NO_EVIDENCE=1 bin/check "$id" --tier "$tier" ); rc=$?
-git -C /repo checkout -- . ; git -C /repo clean -fdq -- . 2>/dev/null
+# usage: bin/try-seed.sh <patch.diff> <ID> [tier]
+# Runs the check for <ID> against a scratch worktree of /repo with the patch applied (VERIF_REPO),
+# so that /repo itself and concurrent runs are not disturbed.  Evidence is not rewritten.
+patch="$(readlink -f "$1")"; id="$2"; tier="${3:-quick}"
+wt="/tmp/tryseed/$id-$$"
+mkdir -p /tmp/tryseed
+git -C /repo worktree add --detach "$wt" HEAD >/dev/null 2>&1 || exit 2
+( cd "$wt" && (git apply --3way "$patch" 2>/dev/null || git apply "$patch") ) || { echo "patch does not apply"; git -C /repo worktree remove --force "$wt"; exit 2; }
+( cd /verif && VERIF_REPO="$wt" VERIF_NO_EVIDENCE=1 bin/check "$id" --tier "$tier" ); rc=$?
+git -C /repo worktree remove --force "$wt"; git -C /repo worktree prune
+rm -rf /verif/out/mod-* 2>/dev/null
 echo "try-seed: $id $patch -> exit $rc"
 exit $rc
